@@ -307,6 +307,46 @@ def record_type_restored(chk):
             raise AnalysisBroken('%s: only %d application_data := 1 sites' % (key, n))
 
 
+def no_renegotiation_option(chk):
+    """BR_OPT_NO_RENEGOTIATION: "when disabled, renegotiation is declined with a no_renegotiation warning".  In both interpreters the
+    post-handshake loop - the word that sends warning 100 - must consult that option: the bytecode tests engine flags by bit *index*
+    (`n flag?` = (flags >> n) & 1), so the index used next to the decline must be log2(BR_OPT_NO_RENEGOTIATION), not the mask value and
+    not another option's index."""
+    R = 'no-renegotiation-option-consulted'
+    cv = build.const_values(['BR_OPT_NO_RENEGOTIATION'])
+    want = cv['BR_OPT_NO_RENEGOTIATION'].bit_length() - 1
+    if 1 << want != cv['BR_OPT_NO_RENEGOTIATION']:
+        raise AnalysisBroken('BR_OPT_NO_RENEGOTIATION is not a single bit')
+    for key in ('hs_client', 'hs_server'):
+        P = t0.Program(key)
+        o_fl = P.layouts.field(P.ctxname, 'eng.flags')[0]
+        flagw = []
+        for w, W in P.words.items():
+            l = list(W.ins.values())
+            if len(l) <= 10 and any(i.kind == 'native' and i.name == 'get32' for i in l) and \
+                    any((i.kind == 'const' and i.arg == o_fl) or (i.kind == 'call' and P.const_word_value(i.arg) == o_fl) for i in l) and \
+                    any(i.kind == 'native' and i.name == '>>' for i in l):
+                flagw.append(w)
+        if len(flagw) != 1:
+            raise AnalysisBroken('%s: the flag-test word is not identified (%s)' % (key, flagw))
+        loops = []
+        for w, W in P.words.items():
+            l = list(W.ins.values())
+            if any(i.kind == 'const' and i.arg == 100 and k + 1 < len(l) and l[k + 1].kind == 'call' for k, i in enumerate(l)):
+                loops.append(w)
+        if not loops:
+            raise AnalysisBroken('%s: no word sends warning 100 (no_renegotiation)' % key)
+        for w in loops:
+            l = list(P.words[w].ins.values())
+            idx = [l[k - 1].arg if (k > 0 and l[k - 1].kind == 'const') else None for k, i in enumerate(l) if i.kind == 'call' and i.arg == flagw[0]]
+            inst = '%s W%d: the loop that declines renegotiation tests engine flag bit %d (BR_OPT_NO_RENEGOTIATION)' % (key, w, want)
+            if want in idx:
+                chk.ok(R, inst, P.src, 'flag indices tested in the word: %s' % idx)
+            else:
+                chk.violation(R, inst, P.src, 'flag indices tested in the word: %s - the option is not consulted (the mask value %d is not its bit index)'
+                              % (idx, cv['BR_OPT_NO_RENEGOTIATION']), key='%s %s' % (R, key))
+
+
 def reneg_binding(chk):
     """RFC 5746 3.4-3.7: a renegotiation is bound to the previous handshake by comparing the renegotiation_info extension with the
     saved verify_data: the client compares client_verify_data || server_verify_data (2 x 12 bytes), the server client_verify_data
@@ -610,6 +650,7 @@ def run(tier):
     alert_levels(chk)
     close_notify_remembered(chk)
     record_type_restored(chk)
+    no_renegotiation_option(chk)
     fail_call_sites(chk)
     io_rules(chk)
     chk.floor('rule instances', len(chk.obls), 100)
